@@ -14,6 +14,7 @@ import (
 
 	"verif/mc/doc"
 	"verif/mc/explore"
+	"verif/mc/ref"
 	"verif/mc/report"
 )
 
@@ -213,6 +214,7 @@ type wrapper struct{ pre, post string }
 var c06Wrappers = []wrapper{
 	{"(", ")"}, {"a[", "]"}, {"not(", ")"}, {"a/(", ")"}, {"(", ",a)"}, {"-", ""}, {"1+", ""}, {"", "+1"}, {"a|", ""}, {"a/", ""}, {"", "/a"},
 	{"a[1][", "]"}, {"concat(1,", ")"}, {"a[b=", "]"}, {"(a|", ")"}, {"a[(", ")]"}, {"-(", ")"}, {"a/(b,", ")"}, {"", "[1]"}, {"count(a[", "])"},
+	{"(a)[", "]"}, {"count(a)[", "]"}, {"'s'[", "]"}, {"1[", "]"}, {"(a)/b[", "]"}, {"a[not(", ")]"}, {"a[1=", "]"}, {"@a[", "]"}, {".[", "]"}, {"(a)[1][", "]"},
 }
 
 // nestContexts embed the nested construct in an outer position (so that e.g.
@@ -344,6 +346,64 @@ func nestSpace(unitLen int, depths []int) *explore.Space {
 	}
 }
 
+// callSpace: every function name of the table (and an unknown one) x arity
+// 0..4 x a small argument alphabet, bare and inside a predicate: Compile only.
+func callSpace() *explore.Space {
+	var names []string
+	for n := range ref.Arity {
+		names = append(names, n)
+	}
+	names = append(names, "nosuchfn", "processing-instruction", "node", "text", "comment")
+	for i := 1; i < len(names); i++ {
+		for j := i; j > 0 && names[j-1] > names[j]; j-- {
+			names[j-1], names[j] = names[j], names[j-1]
+		}
+	}
+	args := []string{"1", "'s'", "a", "@a", ".", "true()", "a[1]", "(a)", "-1", "$v", "''", "a/b", "1 div 0", "*", "//a"}
+	return &explore.Space{
+		Name: "Calls", Desc: fmt.Sprintf("every function name x arity 0..4 x argument tuples over %d arguments, bare / in a predicate / as a step: Compile only", len(args)),
+		Size:  len(names),
+		Label: func(i int) string { return names[i] + "(...)" },
+		Run: func(i int, w *explore.Worker) {
+			name := names[i]
+			w.Sample(name + "(a, 1)")
+			for n := 0; n <= 4; n++ {
+				alpha := args
+				if n >= 3 {
+					alpha = args[:6]
+				}
+				total := 1
+				for k := 0; k < n; k++ {
+					total *= len(alpha)
+				}
+				for code := 0; code < total; code++ {
+					c := code
+					parts := make([]string, n)
+					for k := 0; k < n; k++ {
+						parts[k] = alpha[c%len(alpha)]
+						c /= len(alpha)
+					}
+					call := name + "(" + strings.Join(parts, ", ") + ")"
+					for _, s := range []string{call, "//a[" + call + "]", "a/" + call, call + "/a", call + " = 1"} {
+						w.Eval()
+						fail, acc := totalOne(s, n <= 2)
+						if acc {
+							w.NonTrivialCase(s)
+							w.EngOutcome("accepted")
+						} else {
+							w.EngOutcome("rejected")
+						}
+						if fail != "" {
+							c06Fail(w, "Calls", s, fail)
+						}
+					}
+				}
+			}
+			w.RefOutcome("n/a")
+		},
+	}
+}
+
 func init() {
 	report.RegisterReplayer("total", func(c *report.Case) (string, bool, error) {
 		fail, _ := totalOne(c.Expr, true)
@@ -364,16 +424,16 @@ func init() {
 	})
 	explore.Register(&explore.Property{
 		ID: "C06", Level: "exploration",
-		Rule: "B1: every string of <= 3 (thorough: 4) symbols over a 48-symbol alphabet (all scanner-relevant bytes, quotes, digits, letters, blanks, NUL, 2- and 3-byte UTF-8, lone continuation byte, 0xFF); B2: every sequence of <= 4 (thorough: 5-6) tokens over 31 tokens joined with and without blanks; for each string Compile, CompileWithNS(nil,{},{a:u}) and MustCompile run under recover: no panic escapes, exactly one of (expr, error), MustCompile non-nil, an accepted expression reports its text and can be handed to Select. Nest: every repeating unit of 1-2 (thorough: 3) wrappers out of 20 recursive constructs nested to depth 10..10^5 (thorough: 10^6, 10^7), each compiled in a child process with a 64 MiB stack cap; a stack overflow, crash or hang is a violation; non-trivial = string accepted by Compile / nesting case; distinct = distinct strings",
+		Rule: "B1: every string of <= 3 (thorough: 4) symbols over a 48-symbol alphabet (all scanner-relevant bytes, quotes, digits, letters, blanks, NUL, 2- and 3-byte UTF-8, lone continuation byte, 0xFF); B2: every sequence of <= 4 (thorough: 5-6) tokens over 31 tokens joined with and without blanks; for each string Compile, CompileWithNS(nil,{},{a:u}) and MustCompile run under recover: no panic escapes, exactly one of (expr, error), MustCompile non-nil, an accepted expression reports its text and can be handed to Select. Calls: every function name x arity 0..4 x argument tuples, bare / in a predicate / as a step (Compile only). Nest: every repeating unit of 1-2 (thorough: 3) wrappers out of 30 recursive constructs in 7 outer contexts nested to depth 10..10^5 (thorough: 10^6, 10^7), each compiled in a child process with a 64 MiB stack cap; a stack overflow, crash or hang is a violation; non-trivial = string accepted by Compile / nesting case; distinct = distinct strings",
 		Assumptions:    []string{"bounded string length / token count / nesting depth", "an unguarded recursion needs < 64 MiB of stack per 10^5..10^6 frames to be visible"},
 		Budget:         budget(55*time.Second, 14*time.Minute),
 		MinRefOutcomes: 1,
 		Spaces: func(tier string) []*explore.Space {
 			if tier == "thorough" {
-				return []*explore.Space{bytesSpace(4), tokenSpace(5, false), nestSpace(1, []int{10, 100, 1000, 10000, 100000, 1000000, 10000000}),
+				return []*explore.Space{bytesSpace(4), tokenSpace(5, false), callSpace(), nestSpace(1, []int{10, 100, 1000, 10000, 100000, 1000000, 10000000}),
 					nestSpace(2, []int{10, 1000, 100000, 1000000}), nestSpace(3, []int{300, 100000})}
 			}
-			return []*explore.Space{bytesSpace(3), tokenSpace(4, true), nestSpace(1, []int{10, 100, 1000, 10000, 100000, 1000000}), nestSpace(2, []int{300, 100000})}
+			return []*explore.Space{bytesSpace(3), tokenSpace(4, true), callSpace(), nestSpace(1, []int{10, 100, 1000, 10000, 100000, 1000000}), nestSpace(2, []int{300, 100000})}
 		},
 	})
 }
